@@ -84,11 +84,18 @@ class Group:
         else:
             ret = None
 
-        for t in target_iter(target, scope):
-            last, ret = ret, scope[glom](t, self.spec, scope)
-            if ret is STOP:
-                return last
-        return ret
+        try:
+            for t in target_iter(target, scope):
+                last, ret = ret, scope[glom](t, self.spec, scope)
+                if ret is STOP:
+                    return last
+            return ret
+        finally:
+            # the accumulators belong to this evaluation only: a later
+            # step chained onto this scope (e.g., in a Pipe evaluated
+            # by an enclosing Group) goes back to the enclosing ones
+            del scope.maps[0][ACC_TREE]
+            del scope.maps[0][CUR_AGG]
 
     def __repr__(self):
         cn = self.__class__.__name__
